@@ -15,7 +15,7 @@ import vlib
 from vlib import Report, coq_prove, cargo_build
 
 from props import sched_common as sc
-from props.c04 import detect_hooks, compare_and_judge, tail, interleavings
+from props.c04 import detect_hooks, compare_and_judge, tail, interleavings, load_corpus
 
 R_KINDS = ["level", "level", "targets", "env", "dyn", "none"]
 
@@ -198,7 +198,9 @@ def run(ctx):
     rng = ctx.rng
 
     n_hist = 1400 if thorough else 220
-    hist = [gen_history(rng, malformed=(i % 7 == 6)) for i in range(n_hist)]
+    corpus = load_corpus(hooks, "C12")
+    hist = [c for _, c in corpus if not any(c["progs"])]
+    hist += [gen_history(rng, malformed=(i % 7 == 6)) for i in range(n_hist)]
     impl = sc.run_impl(ctx, binpath, hist, "hist")
     model = None
     try:
@@ -215,7 +217,7 @@ def run(ctx):
                 rep.count("reload-to:" + c["filters"][op[2]][0])
 
     if hooks:
-        cases = []
+        cases = [c for _, c in corpus if any(c["progs"])]
         n_scen = 220 if thorough else 40
         per = 10 if thorough else 6
         for _ in range(n_scen):
@@ -231,6 +233,10 @@ def run(ctx):
                 ex_names.append("%s:%d" % (name, len(ils)))
             for il in ils:
                 cases.append(dict(base, sched=il + tail(2, 30)))
+        fam = sc.family_cases(sc.c12_families(), rng, thorough)
+        cases += fam
+        rep.count("race-family-schedules", len(fam))
+        rep.extra["race_families"] = sorted({c["family"] for c in fam})
         impl = sc.run_impl(ctx, binpath, cases, "sched")
         model = None
         try:
@@ -244,6 +250,7 @@ def run(ctx):
                 n_racing[0] += 1
             return bool(fl.get("preempted"))
         compare_and_judge(ctx, rep, cases, impl, model, "forced-schedules", nt)
+        sc.worlds_wf(ctx, rep, hist + cases, "wf")
         unfinished = sum(1 for im in impl if im["finished"] is False)
         rep.tie("schedules-complete", unfinished == 0, "%d schedules ended before every thread finished" % unfinished)
         rep.count("forced-schedules", len(cases))
